@@ -30,8 +30,8 @@ ASSUMPTIONS = ["expected transactions are derived from the cell table by an inde
 D1, D2, D3 = dt.date(2025, 1, 15), dt.date(2025, 1, 16), dt.date(2025, 2, 3)
 
 
-def K(name, date=D1, desc="COFFEE SHOP", amt="12.50", shape="normal", pad=False):
-    return {"name": name, "date": date, "desc": desc, "amt": amt, "shape": shape, "pad": pad}
+def K(name, date=D1, desc="COFFEE SHOP", amt="12.50", shape="normal", pad=False, typ="POS"):
+    return {"name": name, "date": date, "desc": desc, "amt": amt, "shape": shape, "pad": pad, "type": typ}
 
 
 KINDS = [
@@ -46,6 +46,8 @@ KINDS = [
     K("a-nan", amt="nan"), K("a-inf", amt="inf"), K("a-neginf", amt="-Infinity"), K("a-paren", amt="(12.50)"),
     K("a-usd", amt="$1,234.50"), K("a-eu", amt="1.234,50"), K("a-eur7", amt="€ 7"), K("a-1.234", amt="1.234"),
     K("a-12,500", amt="12,500"), K("a-neg", D3, "REFUND", "-45.10"), K("good2", D3, "BOOK STORE", "100"),
+    # cells holding text that looks like a template placeholder (a description template is filled once, from the cells)
+    K("brace-type", D2, "PLAIN STORE", "2.00", typ="{merchant}"), K("brace-desc", D2, "{type} {amount}", "2.50", typ="{date}"),
 ]
 
 LAYOUTS = [
@@ -58,7 +60,7 @@ LAYOUTS = [
     {"name": "L6", "cols": ["date", "amount", "type", "merchant"], "datefmt": "%m/%d/%Y", "template": "{merchant} ({type})"},
 ]
 DELIMS = ["comma", "semicolon", "tab", "regex", "regex-opt"]
-SIGNS = ["keep", "negate", "abs", "override"]
+SIGNS = ["keep", "negate", "abs", "override", "abs+override"]      # the last one: {+amount} together with negate_amount: true
 DECIMALS = [".", ","]
 
 
@@ -81,7 +83,7 @@ def format_string(L, sign):
         if c == "date":
             toks.append("{date:" + L["datefmt"] + "}")
         elif c == "amount":
-            toks.append({"keep": "{amount}", "override": "{amount}", "negate": "{-amount}", "abs": "{+amount}"}[sign])
+            toks.append({"keep": "{amount}", "override": "{amount}", "negate": "{-amount}", "abs": "{+amount}", "abs+override": "{+amount}"}[sign])
         else:
             toks.append("{" + c + "}")
     return ", ".join(toks)
@@ -93,7 +95,7 @@ def cells_for(kind, L):
     cols = L["cols"]
     if kind["shape"] == "empty":
         return [""] * len(cols)
-    vals = {"_": "x", "location": "Seattle", "card": "VISA 1234", "type": "POS", "merchant": kind["desc"], "description": kind["desc"],
+    vals = {"_": "x", "location": "Seattle", "card": "VISA 1234", "type": kind.get("type", "POS"), "merchant": kind["desc"], "description": kind["desc"],
             "amount": kind["amt"], "date": kind["date"].strftime(L["datefmt"]) if isinstance(kind["date"], dt.date) else kind["date"]}
     cells = [vals[c] for c in cols]
     if kind["pad"]:
@@ -145,7 +147,7 @@ def parse_real(rows_cells, L, delim, header, decimal, sign, bom=False):
         src["delimiter"] = T.regex_delimiter(len(L["cols"]))
     elif delim == "regex-opt":
         src["delimiter"] = T.regex_delimiter_opt(len(L["cols"]))
-    if sign == "override":
+    if sign in ("override", "abs+override"):
         src["negate_amount"] = True
     resolved = resolve_source_format(src)
     spec = resolved["_format_spec"]
@@ -198,7 +200,8 @@ def check_case(case):
                         except Exception as e:  # noqa
                             viol.append({"kind": "parser-raises", "detail": {"config": cfg, "exc": f"{type(e).__name__}: {e}"}})
                             continue
-                        refsign = "negate" if sign == "override" else sign
+                        # {+amount} makes the amount absolute whatever else is set
+                        refsign = {"override": "negate", "abs+override": "abs"}.get(sign, sign)
                         exp = [T.expected_txn(r, ref, decimal, refsign, "SrcA") for r in rows_exp]
                         exp = [e for e in exp if e is not None]
                         if exp:
